@@ -535,9 +535,10 @@ class Sim(object):
     def idle(self):
         tr = self.tr
         return {'recording': bool(tr.in_recording_mode), 'playback': bool(tr.in_playback_mode),
-                'forced': bool(tr.is_recording_sample_forced), 'counter': len(tr._invoke_counter),
-                'inInt': bool(tr._currently_in_interception), 'active': tr._active_recording is not None,
-                'pbOutputs': len(tr._playback_outputs)}
+                'forced': bool(tr.is_recording_sample_forced), 'counter': self._private_len(tr, '_invoke_counter'),
+                'inInt': bool(getattr(tr, '_currently_in_interception', False)),
+                'active': getattr(tr, '_active_recording', None) is not None,
+                'pbOutputs': self._private_len(tr, '_playback_outputs')}
 
     def rval(self, key, v):
         if key.startswith('input:') or (key.startswith('output:') and key.endswith('.result')):
@@ -586,6 +587,15 @@ class Sim(object):
             return [text, calendar.timegm(stamp.timetuple()) - _time.time()]
         except Exception as ex:       # absent / not a naive UTC timestamp text
             return [repr(text), None]
+
+    @staticmethod
+    def _private_len(tr, name):
+        """size of a private container of the recorder (0 when a refactoring has renamed it: then only behaviour can tell)"""
+        v = getattr(tr, name, None)
+        try:
+            return len(v) if v is not None else 0
+        except TypeError:
+            return 0
 
     def outputs(self, outs):
         return sorted([o.key, self.rval(o.key, o.value)] for o in outs)
